@@ -102,7 +102,11 @@ def build(targets=None, jobs=16, timeout=1500):
     """full .vo build (never -vos) of the given targets (default: everything)"""
     ensure_makefile()
     cmd = ["make", "-j%d" % jobs] + (targets or [])
-    return sh(cmd, timeout, cwd=COQ)
+    rc, out, err = sh(cmd, timeout, cwd=COQ)
+    if rc != 0:
+        # once more, sequentially: a proof that is really broken fails again, a hiccup of the parallel build does not
+        rc, out, err = sh(["make"] + (targets or []), timeout, cwd=COQ)
+    return rc, out, err
 
 
 def build_runner():
@@ -321,6 +325,14 @@ class Prop:
     def histogram(self, cases, obs):
         return {}
 
+    def repass(self, cases):
+        """indices of the cases to run once more in a single process (second pass)"""
+        n = 40 if self.per_case_timeout >= 60 else 240
+        if len(cases) <= n:
+            return list(range(len(cases)))
+        step = len(cases) / float(n)
+        return sorted(set(int(k * step) for k in range(n)))
+
     def extra_search(self, rng):
         """more cases for the failing-input search when an obligation or the correspondence broke"""
         return self.gen(rng, "thorough")[:4000]
@@ -378,7 +390,11 @@ def run_prop(prop, tier, seed, replay=None):
     # ---- cases
     if replay:
         rp = json.load(open(replay))
-        cases = [rp["input"]] if "input" in rp and rp["input"] is not None else []
+        if rp.get("sequence"):
+            # a failure that shows only after other cases have run in the same process: the whole prefix, in order
+            cases = list(rp["sequence"])
+        else:
+            cases = [rp["input"]] if "input" in rp and rp["input"] is not None else []
     else:
         cases = prop.gen(rng, tier)
         corpus_dir = os.path.join(VERIF, "corpus", prop.id)
@@ -388,7 +404,10 @@ def run_prop(prop, tier, seed, replay=None):
                 if fn.endswith(".json"):
                     corpus.append(json.load(open(os.path.join(corpus_dir, fn)))["input"])
         cases = corpus + cases
-    obs = run_impl(prop.impl_module, cases, per_case=prop.per_case_timeout) if cases else []
+    if replay and cases:
+        obs = run_impl_shard(prop.impl_module, cases, 900, prop.per_case_timeout, "replay")     # one process, in order
+    else:
+        obs = run_impl(prop.impl_module, cases, per_case=prop.per_case_timeout) if cases else []
     mouts = None
     if model_ok and cases:
         minputs = [prop.model_input2(c, o) for c, o in zip(cases, obs)]
@@ -416,19 +435,41 @@ def run_prop(prop, tier, seed, replay=None):
             if not okx:
                 broken.append(msg)
 
+    # ---- second pass: a sample of the cases once more, in ONE process and in another order.  What the library
+    # answers must not depend on what the process has done before (caches, class-level or module-level state).
+    again = []
+    if cases and not replay:
+        idx2 = prop.repass(cases)
+        random.Random(seed * 7 + 13).shuffle(idx2)
+        if idx2:
+            obs2 = run_impl_shard(prop.impl_module, [cases[i] for i in idx2], 900, prop.per_case_timeout, "again")
+            again = list(zip(idx2, obs2))
+            res.notes.append("second pass: %d cases re-run in one process, shuffled" % len(idx2))
+
     disagreements, failures = [], []
     nontriv = set()
-    for i, c in enumerate(cases):
-        o = obs[i]
-        k = prop.nontrivial(c, o)
-        if k is not None:
-            nontriv.add(k)
+    obs_of, sequences = {}, {}
+    for i, o in [(i, obs[i]) for i in range(len(cases))] + again:
+        c = cases[i]
+        first = i not in obs_of
+        if first:
+            obs_of[i] = o
+            k = prop.nontrivial(c, o)
+            if k is not None:
+                nontriv.add(k)
         f = prop.oracle(c, o)
         if f is not None:
+            if not first:
+                obs[i] = o          # the replay shows the observation that failed
+                f = f + " [when re-run after other cases in the same process]"
+                order = [j for j, _ in again]
+                sequences[i] = [cases[j] for j in order[:order.index(i) + 1]]
             failures.append((i, f))
         if mouts is not None:
             d = prop.compare(c, o, mouts[i])
             if d is not None:
+                if not first:
+                    d = d + " [when re-run after other cases in the same process]"
                 disagreements.append((i, d))
 
     # ---- violation protocol
@@ -443,9 +484,11 @@ def run_prop(prop, tier, seed, replay=None):
         if sig in reported:
             continue
         reported.add(sig)
-        res.violation("counterexample", None, {
-            "input": cases[i], "observed": obs[i], "required": f,
-            "model": mouts[i] if mouts is not None else None})
+        payload = {"input": cases[i], "observed": obs[i], "required": f,
+                   "model": mouts[i] if mouts is not None else None}
+        if i in sequences:
+            payload["sequence"] = sequences[i]
+        res.violation("counterexample", None, payload)
     unknown_failures = bool(res.violations)
     if (broken or disagreements) and not unknown_failures:
         # search for a concrete failing input before giving up
